@@ -17,6 +17,71 @@ BASIC = 'minecraft.networking.types.basic'
 BLOCK = 'minecraft.networking.packets.clientbound.play.block_change_packet'
 
 
+def sample_values(f):
+    """boundary values of a field of f['width'] bits"""
+    w = f['width']
+    if f['signed']:
+        vals = {0, 1, -1, 2 ** (w - 1) - 1, -2 ** (w - 1)}
+        for k in range(w - 1):
+            vals.add(2 ** k)
+            vals.add(-2 ** k)
+    else:
+        vals = {0, 1, 2 ** w - 1}
+        for k in range(w):
+            vals.add(2 ** k)
+    return sorted(vals)
+
+
+def concrete_witness(F, ctx, send_fi, vparam, build, read_fi, getres, fields):
+    """The same packer / unpacker, interpreted on concrete field values
+    (constant bit vectors: every operation folds, nothing is lost): the first
+    value that does not come back, as text, or None.  Nothing is executed --
+    it is the abstract interpreter run on constants."""
+    names = sorted(fields)
+    zero = {n: 0 for n in names}
+    cases = []
+    for n in names:
+        for x in sample_values(fields[n]):
+            c = dict(zero)
+            c[n] = x
+            cases.append(c)
+    for pick in (min, max):
+        cases.append({n: pick(sample_values(fields[n])) for n in names})
+    for c in cases:
+        try:
+            pk = run_packer(F, send_fi, ctx, vparam,
+                            build({n: BV.const(x) for n, x in c.items()}))
+            up = run_unpacker(F, read_fi, ctx,
+                              [(cd, w) for cd, w, _ in pk.out])
+            got = getres(up)
+        except AnalysisError:
+            return None
+        if got is None:
+            return None
+        for n in names:
+            g = got.get(n)
+            if not isinstance(g, BV) or g.const_value() is None:
+                return None
+            if g.const_value() != c[n]:
+                return '%s = %d is decoded as %d (other fields %s)' % (
+                    n, c[n], g.const_value(),
+                    {k: v for k, v in c.items() if k != n})
+    return None
+
+
+def undecidable(got, want):
+    """The decoded value has bits the analysis lost track of (TOP) and every
+    bit it did follow agrees with the input: neither equal nor different can
+    be claimed."""
+    from ..bitprov import TOP
+    if not isinstance(got, BV):
+        return False
+    pairs = list(zip(got.bits, want.bits)) + [(got.hi, want.hi)]
+    if not any(g == TOP for g, _ in pairs):
+        return False
+    return all(g == TOP or g == w for g, w in pairs)
+
+
 def ctx_param(fi):
     for p in fi.params:
         if p in ('context', '_context', 'ctx'):
@@ -76,6 +141,25 @@ class Agg(object):
         self.report = report
         self.P = P
         self.bad = {}
+        self.pending = []
+        self.tried = {}
+
+    def undecided(self, err, retry=None, where=None):
+        """a field the bit analysis lost track of: the concrete retry looks
+        for a value that does not come back; without one it is reported as
+        'nothing decided' at the end, unless something else is definitely
+        wrong"""
+        if retry is not None:
+            key = where[:2]
+            if key not in self.tried:
+                self.tried[key] = retry()
+            w = self.tried[key]
+            if w:
+                rid, construct, fi, v = where
+                self.fail(rid, construct, fi, None,
+                          'a value does not survive the round trip: ' + w, v)
+                return
+        self.pending.append(err)
 
     def fail(self, rid, construct, fi, node, msg, v):
         key = (rid, construct)
@@ -85,6 +169,8 @@ class Agg(object):
             self.bad[key]['versions'].append(v)
 
     def flush(self):
+        if self.pending and not self.bad:
+            raise self.pending[0]
         for (rid, construct), d in self.bad.items():
             vs = d['versions']
             self.report.violation(
@@ -246,6 +332,18 @@ def run(report, db, tier):
             for nm in ('x', 'y', 'z'):
                 if isinstance(got[nm], BV) and got[nm].same(inp[nm]):
                     report.ok(R2)
+                elif undecidable(got[nm], inp[nm]):
+                    agg.undecided(AnalysisError(
+                        'Position: the decoded %s is not followed bit by bit '
+                        '(an operation the bit analysis does not interpret); '
+                        'nothing decided' % nm, pread.node, rel(pread.path)),
+                        retry=lambda ctx=ctx: concrete_witness(
+                            F, ctx, psend, psend.params[0],
+                            lambda d: Seq([d['x'], d['y'], d['z']]), pread,
+                            lambda up: result_fields(up.result,
+                                                     ['x', 'y', 'z']),
+                            pr['fields']),
+                        where=(R2, 'position:roundtrip:%s' % nm, pread, v))
                 else:
                     d = got[nm].describe() if isinstance(got[nm], BV) \
                         else repr(got[nm])
@@ -292,6 +390,18 @@ def run(report, db, tier):
             for nm in ('x', 'y', 'z'):
                 if isinstance(got[nm], BV) and got[nm].same(inp[nm]):
                     report.ok(R4)
+                elif undecidable(got[nm], inp[nm]):
+                    agg.undecided(AnalysisError(
+                        'ChunkSectionPos: the decoded %s is not followed bit '
+                        'by bit; nothing decided' % nm, cread.node,
+                        rel(cread.path)),
+                        retry=lambda ctx=ctx: concrete_witness(
+                            F, ctx, csend, csend.params[1],
+                            lambda d: Seq([d['x'], d['y'], d['z']]), cread,
+                            lambda up: result_fields(up.result,
+                                                     ['x', 'y', 'z']),
+                            cr['fields']),
+                        where=(R4, 'csp:roundtrip:%s' % nm, cread, v))
                 else:
                     d = got[nm].describe() if isinstance(got[nm], BV) \
                         else repr(got[nm])
@@ -344,6 +454,17 @@ def run(report, db, tier):
                 g = res.attrs.get(nm)
                 if isinstance(g, BV) and g.same(inp[nm]):
                     report.ok(R5)
+                elif undecidable(g, inp[nm]):
+                    agg.undecided(AnalysisError(
+                        'Record: the decoded %s is not followed bit by bit; '
+                        'nothing decided' % nm, rread.node, rel(rread.path)),
+                        retry=lambda ctx=ctx, rr=rr: concrete_witness(
+                            F, ctx, rsend, rsend.params[1],
+                            lambda d: Rec(d), rread,
+                            lambda up: up.result.attrs if isinstance(
+                                up.result, Rec) else None, rr['fields']),
+                        where=(R5, 'record:roundtrip:%s:%s' % (
+                            'new' if new else 'old', nm), rread, v))
                 else:
                     d = g.describe() if isinstance(g, BV) else repr(g)
                     agg.fail(R5, 'record:roundtrip:%s:%s' % (
